@@ -1054,7 +1054,7 @@ def evaluate__contains_token(self: XPathFunction, context: ta.ContextType = None
         context = self.context
 
     token_string = self.get_argument(context, index=1, required=True, cls=str)
-    token_string = token_string.strip()
+    token_string = token_string.strip(' \t\n\r')
 
     if len(self) < 3:
         collation = self.parser.default_collation
@@ -1068,7 +1068,7 @@ def evaluate__contains_token(self: XPathFunction, context: ta.ContextType = None
             if not isinstance(input_string, str):
                 raise self.error('XPTY0004')
             if any(x and manager.eq(token_string, x)
-                   for x in re.split('[ \t\n\r\f\v]+', input_string)):
+                   for x in re.split('[ \t\n\r]+', input_string)):
                 return True
         else:
             return False
